@@ -52,4 +52,17 @@ theorem size_leaf (prog : List Ins) (e : Env) (blockIns : List Ins) (pc0 : Nat) 
   simp [Op.pops] at hvp
   rw [← hvp, truthy_b2n]
 
+/-- the tool's leaf matcher on the direct check `global GroupSize; int n; op` -/
+theorem intSingle_direct (ic : Option (List Nat)) (a : Ast) (p p1 p2 o1 o2 : Nat) (c : Cmp) (n : Nat)
+    (hp : a.opOf p = .cmp c) (hargs : a.argsOf p = [some (p1, o1), some (p2, o2)])
+    (h1 : a.opOf p1 = .global "GroupSize") (h2 : a.opOf p2 = .int (.lit n)) :
+    intSingle ic a ⟨"GroupSize", .self⟩ p =
+      (OSet.ofList (assertedIntValues c n (intUniv "GroupSize")),
+       OSet.diff (intUniv "GroupSize") (OSet.ofList (assertedIntValues c n (intUniv "GroupSize")))) := by
+  unfold intSingle
+  simp only [hp, hargs]
+  have hlit : intLit ic (a.opOf p2) = some n := by
+    rw [h2]; simp [intLit, intPush]
+  simp [h1, hlit]
+
 end Tealer.IntLeaf
